@@ -38,6 +38,7 @@ RULE = ('Tables of 1-5 columns over boolean / integer / number / string / '
 RULE += ' ' + "Also: time forms with a fraction separated by ':' or ' ' and HH.mm.ss; metadata rewritten in place at the same path after another description was loaded from it; encoding / delimiter declared through dc:replaces beside a dialect section that lacks them; characters U+0080-U+009F; column names differing only in case."
 RULE += ' ' + 'Round 6: a third of the cases name only the CSV (findmd=True; the CSV is data.v2.csv and a sibling data.csv with all-string metadata and no rows is the decoy) and a third only the metadata, through a symbolic link beside the CSV whose target lies in another directory beside a decoy data.csv.'
 RULE += ' ' + 'Round 7: the format written on the column beside a bare or an object datatype (format_on); a sixth of the tables have a column name that begins or ends with a space.'
+RULE += ' ' + "Round 8: titles written as a string, a list or a CSVW language map; for default-dialect files two more call forms: metadata describing two tables (the second one's url 'redata.csv' ends with the CSV's name), the wanted table picked by name (use_table_name=True, wanted table first) or by number (table_number=1, wanted table second)."
 ASSUMPTIONS = ['empty strings are not generated (CSV cannot tell them from '
                'null); strings pandas\' default NA list would swallow are '
                'not generated (recorded finding)']
@@ -493,7 +494,16 @@ def call_form(case):
     another directory, beside another table of that name)."""
     if case.get('prior') or case['header'] == 'absent-no-titles':
         return 'both'
-    return ['both', 'findmd', 'md-link'][(case['n'] + len(case['cols'])) % 3]
+    k = (case['n'] + len(case['cols'])) % 5
+    if k >= 3 and (case.get('md_style', 'dialect') != 'dialect'
+                   or case['delimiter'] != ',' or case['encoding'] != 'utf-8'
+                   or case['header'] != 'present'):
+        # (what a dialect inside one of several table descriptions means
+        # to tdda is not documented: only default-dialect files)
+        return 'both'
+    # (multi-name / multi-number: the metadata describes two tables, the
+    # one wanted being picked by the CSV's name or by its number)
+    return ['both', 'findmd', 'md-link', 'multi-name', 'multi-number'][k]
 
 
 def write_for_form(case, d, form):
@@ -505,6 +515,20 @@ def write_for_form(case, d, form):
     decoy['n'] = 0
     for c in decoy['cols']:
         c['cells'] = []
+    if form in ('multi-name', 'multi-number'):
+        path, mdpath = write_files(case, d)
+        mine = metadata(case)
+        other = metadata(decoy)
+        other['url'] = 'redata.csv'
+        tables = [{k: v for (k, v) in t.items() if k != '@context'}
+                  for t in ([mine, other] if form == 'multi-name'
+                            else [other, mine])]
+        with open(mdpath, 'w', encoding='utf-8') as f:
+            json.dump({'@context': 'http://www.w3.org/ns/csvw',
+                       'tables': tables}, f, ensure_ascii=False)
+        if form == 'multi-name':
+            return (path, mdpath), {'use_table_name': True}, path
+        return (path, mdpath), {'table_number': 1}, path
     if form == 'findmd':
         write_files(decoy, d, 'data')
         path, mdpath = write_files(case, d, 'data.v2')
